@@ -222,8 +222,19 @@ func execute(c Case, tr *rec) batch.Result {
 				if m := vanishedRe.FindStringSubmatch(o.Stdout + "\n" + o.Stderr); m != nil {
 					for _, rm := range disk.Removed[removedBefore:] {
 						if rm.Path == m[1] && rm.Proc != i+1 {
-							cl = "linter-fails-on-cache-file-removed-by-concurrent-trim"
-							extra = fmt.Sprintf("\n%s was removed during this phase by process %d (%s) while linter process %d still held its name", filepath.Base(m[1]), rm.Proc, ph.Procs[rm.Proc-1].Kind, i+1)
+							// ... and only when the remover had seen, in its
+							// own Stat of that file, an mtime at least a day
+							// in the past (the known defect is the window
+							// between that Stat and the Remove, in which the
+							// linter looks the entry up and refreshes it).
+							// Removing a file whose mtime it saw as recent
+							// is a different failure.
+							if rm.StatAge >= 86400 {
+								cl = "linter-fails-on-cache-file-removed-by-concurrent-trim"
+							} else {
+								cl = "linter-fails-on-recently-used-cache-file-removed-by-another-process"
+							}
+							extra = fmt.Sprintf("\n%s was removed during this phase by process %d (%s), which had last seen its mtime %.0f s in the past, while linter process %d still held its name", filepath.Base(m[1]), rm.Proc, ph.Procs[rm.Proc-1].Kind, rm.StatAge, i+1)
 						}
 					}
 				}
@@ -231,6 +242,21 @@ func execute(c Case, tr *rec) batch.Result {
 			}
 		}
 		digests = append(digests, dg^simlint.DiskDigest(disk))
+		// reach probes
+		for _, e := range disk.Walk() {
+			if e.Size == 0 && strings.HasSuffix(e.Path, "-d") {
+				res.Counters["probe:phase-ends-with-empty-output-in-cache"]++
+				break
+			}
+		}
+		for _, rm := range disk.Removed[removedBefore:] {
+			if strings.HasSuffix(rm.Path, "-d") || strings.HasSuffix(rm.Path, "-a") {
+				res.Counters["probe:cache-entries-removed-by-trim"]++
+				if rm.StatAge < 86400 {
+					res.Counters["probe:cache-entries-removed-although-seen-fresh"]++
+				}
+			}
+		}
 		if res.Violation != nil {
 			break
 		}
@@ -329,6 +355,11 @@ func (engine) Generate(seed uint64, index int, tier string) json.RawMessage {
 			if k == "lint" && r.P(400) {
 				// name only some packages: their dependencies are analysed for facts only
 				p.Patterns = []int{npkg - 1 - r.N((npkg+1)/2)}
+				if r.P(400) {
+					// any package, also one that others import: later
+					// processes then find it cached and its importers not
+					p.Patterns = []int{r.N(npkg)}
+				}
 				if r.P(300) {
 					p.Patterns = append(p.Patterns, r.N(npkg))
 				}
@@ -361,7 +392,12 @@ func (engine) Generate(seed uint64, index int, tier string) json.RawMessage {
 				}
 			}
 			if trimmy && r.P(600) {
-				ph.After = append(ph.After, Env{K: "clock", D: clockJumps[2+r.N(3)]})
+				if r.P(350) {
+					// a trim is due, nothing has expired
+					ph.After = append(ph.After, Env{K: "clock", D: clockJumps[1]})
+				} else {
+					ph.After = append(ph.After, Env{K: "clock", D: clockJumps[2+r.N(3)]})
+				}
 			}
 		}
 		c.Phases = append(c.Phases, ph)
